@@ -92,7 +92,7 @@ def standin_annealing_grid(tier, seed):
         v["key"] = k if "n_plateau=1" in k else v["key"]
         out.append(v)
     return dict(evaluations=evals, distinct_nontrivial=len(distinct), rule="one evaluation = one annealing configuration through the real constructor and the real temperature updates; distinct = accepted configurations",
-                samples=samples, violations=out[:8],
+                samples=samples, violations=out[:60],
                 bound=dict(n_iter=n_iters, annealing_iterations_or_fraction=[str(x) for x in ann], plateaus=plateaus, initial_temperatures=temps, exhaustive=True))
 
 
